@@ -70,7 +70,10 @@ BLOCKS = ["none", "GeneratorExit", "StopIteration", "StopAsyncIteration", "Runti
 #   ('same',)            raises the very object passed in
 #   ('new', cls, cause)  raises a new object of class cls (cause: 'V' = caused by the passed object)
 SPEC: Dict[str, Dict[Tuple, str]] = {
-    "none": {("stop",): "F", ("yield",): "RT", ("new", "OtherExc", None): "PROP"},
+    # (cause "S": the generator's own ``raise StopAsyncIteration`` after the yield, which CPython promotes to a RuntimeError
+    #  caused by it - an error of the generator like any other, asynccontextmanager lets it propagate)
+    "none": {("stop",): "F", ("yield",): "RT", ("new", "OtherExc", None): "PROP", ("new", "RuntimeError", None): "PROP",
+             ("new", "RuntimeError", "S"): "PROP"},
     "GeneratorExit": {("none",): "F", ("new", "RuntimeError", None): "PROP", ("new", "OtherExc", None): "PROP",
                       ("new", "OtherExc", "V"): "PROP"},
     "StopIteration": {("stop",): "T", ("yield",): "RT", ("new", "RuntimeError", "V"): "F",
@@ -125,6 +128,8 @@ class _CmOps:
         if value == "SELF" and name == "gen":
             return ("GEN",)
         if name == "__cause__" and isinstance(value, tuple) and value[:1] == ("exc",):
+            if value[3] == "S":
+                return exc("S-of-" + str(value[1]), "StopAsyncIteration", None)  # (an object of the generator's own making)
             return self.passed if value[3] == "V" else None
         if name == "__traceback__":
             return ("tb", value)
@@ -346,7 +351,7 @@ def run(ctx) -> None:
 def _rtext(r: Tuple) -> str:
     return {"stop": "stops", "yield": "yields again", "none": "is closed (aclose returns None)",
             "same": "re-raises the very object passed in"}.get(r[0]) or \
-        f"raises a new {r[1]}" + (" caused by the passed object" if r[2] else "")
+        f"raises a new {r[1]}" + (" caused by the passed object" if r[2] == "V" else " caused by a StopAsyncIteration of its own" if r[2] else "")
 
 
 def _decider(oc) -> str:
